@@ -819,6 +819,9 @@ class Parser(ExprParser):
         self.mustbe("TEMPLATE")
         node = Template()
         name = self.mustbe("LT")
+        if self.token.typ == "GT":
+            # template<> (explicit specialization)
+            self.error_msg("Expected a template parameter, found GT")
         while self.token.typ != "GT":
             if self.have("TYPENAME"):
                 name = self.mustbe("ID").value
